@@ -177,6 +177,112 @@ pub open spec fn spec_val_dec(tag: u8, b: Seq<u8>) -> Option<AVal> {
 }
 
 
+// ------------------------------------------------------------------ attribute container model (RFC 8011 §4.1)
+
+/// Abstract attribute group: delimiter tag and name -> value.
+pub type AGroup = (crate::model::DelimiterTag, Map<Seq<char>, AVal>);
+
+/// names are compared by content
+pub open spec fn abs_attrs(m: Map<String, crate::attribute::IppAttribute>) -> Map<Seq<char>, AVal> {
+    Map::new(
+        m.dom().map(|k: String| k@),
+        |n: Seq<char>| aval(m[choose|k: String| m.contains_key(k) && k@ == n].sval()),
+    )
+}
+
+pub open spec fn abs_group(g: crate::attribute::IppAttributeGroup) -> AGroup {
+    (g.stag(), abs_attrs(g.sattrs()))
+}
+
+pub open spec fn abs_groups(a: crate::attribute::IppAttributes) -> Seq<AGroup> {
+    a.sgroups().map_values(|g: crate::attribute::IppAttributeGroup| abs_group(g))
+}
+
+/// index of the first group with delimiter `tag`, or `gs.len()` when there is none
+pub open spec fn first_of(gs: Seq<AGroup>, tag: crate::model::DelimiterTag) -> int
+    decreases gs.len()
+{
+    if gs.len() == 0 {
+        0
+    } else if gs[0].0 == tag {
+        0
+    } else {
+        1 + first_of(gs.skip(1), tag)
+    }
+}
+
+/// RFC-level meaning of "add an attribute to a group kind" (C19's model, used here as the contract of `add`):
+/// into the first group of that kind, replacing an equally named attribute; else a new group at the end.
+pub open spec fn spec_add(gs: Seq<AGroup>, tag: crate::model::DelimiterTag, name: Seq<char>, v: AVal) -> Seq<AGroup> {
+    let i = first_of(gs, tag);
+    if i < gs.len() {
+        gs.update(i, (tag, gs[i].1.insert(name, v)))
+    } else {
+        gs.push((tag, Map::<Seq<char>, AVal>::empty().insert(name, v)))
+    }
+}
+
+// ------------------------------------------------------------------ request model (RFC 8011 §4.1.4, §4.1.5)
+
+use crate::model::DelimiterTag;
+
+pub open spec fn name_val(s: Seq<char>) -> AVal { AVal::Text { tag: T_NAME, s } }
+
+/// The operation group every request and response starts with: attributes-charset (charset) = utf-8,
+/// attributes-natural-language (naturalLanguage) = en, and for a request with a target printer-uri (uri).
+pub open spec fn base_groups(uri: Option<Seq<char>>) -> Seq<AGroup> {
+    let g0 = spec_add(Seq::<AGroup>::empty(), DelimiterTag::OperationAttributes, "attributes-charset"@,
+        AVal::Text { tag: T_CHARSET, s: "utf-8"@ });
+    let g1 = spec_add(g0, DelimiterTag::OperationAttributes, "attributes-natural-language"@,
+        AVal::Text { tag: T_NATLANG, s: "en"@ });
+    match uri {
+        Some(u) => spec_add(g1, DelimiterTag::OperationAttributes, "printer-uri"@, AVal::Text { tag: T_URI, s: u }),
+        None => g1,
+    }
+}
+
+/// add the optional requesting-user-name (nameWithoutLanguage) to the operation group
+pub open spec fn with_user(gs: Seq<AGroup>, user: Option<Seq<char>>) -> Seq<AGroup> {
+    match user {
+        Some(u) => spec_add(gs, DelimiterTag::OperationAttributes, "requesting-user-name"@, name_val(u)),
+        None => gs,
+    }
+}
+
+/// add the optional job-name (nameWithoutLanguage) to the operation group
+pub open spec fn with_job_name(gs: Seq<AGroup>, name: Option<Seq<char>>) -> Seq<AGroup> {
+    match name {
+        Some(n) => spec_add(gs, DelimiterTag::OperationAttributes, "job-name"@, name_val(n)),
+        None => gs,
+    }
+}
+
+/// add the first `n` extra job attributes, in the order given, to the job-attributes group (last one wins per name)
+pub open spec fn with_job_attrs(gs: Seq<AGroup>, attrs: Seq<crate::attribute::IppAttribute>, n: nat) -> Seq<AGroup>
+    decreases n
+{
+    if n == 0 || n > attrs.len() {
+        gs
+    } else {
+        spec_add(with_job_attrs(gs, attrs, (n - 1) as nat), DelimiterTag::JobAttributes, attrs[n - 1].sname(),
+            aval(attrs[n - 1].sval()))
+    }
+}
+
+/// Text of the canonical printer-uri derived from a target URI (the result of `util::canonicalize_uri`,
+/// uninterpreted: C13 is not decided here).
+pub uninterp spec fn canon_uri(u: http::Uri) -> http::Uri;
+
+pub open spec fn target_text(uri: Option<http::Uri>) -> Option<Seq<char>> {
+    match uri {
+        Some(u) => Some(uri_text(canon_uri(u))),
+        None => None,
+    }
+}
+
+/// the payload holds no data source
+pub uninterp spec fn payload_is_empty(p: crate::payload::IppPayload) -> bool;
+
 // ------------------------------------------------------------------ message framing (RFC 8010 §3.1.1)
 
 /// Scan the attribute section that starts at `b` (just after the 8-octet header) by the RFC grammar and
